@@ -1470,6 +1470,8 @@ def concrete_iter(E, v):
     if isinstance(v, (set, frozenset)):
         return list(v)
     if isinstance(v, range):
+        if len(v) > E.unroll_limit * 64:
+            raise Unsupported('iteration over a concrete range of %d elements without a loop contract' % len(v))
         return list(v)
     if isinstance(v, str):
         return list(v)
@@ -1925,6 +1927,8 @@ CLASS_CTOR_MODELS = {'BytesIO': _bytesio_ctor}
 FORCE_CTOR = set()
 BASE_INIT_MODELS = {}
 TRUTH_MODELS = {}
+# modelled external classes without __bool__/__len__ (object default: always true)
+ALWAYS_TRUTHY = {'object', 'Future', 'Task', 'Event', 'Queue', 'datetime', 'Lock', 'Condition', 'Semaphore'}
 OBJ_BINOP = {}
 OBJ_CMP = {}
 OBJ_EQ = {}
